@@ -41,6 +41,14 @@ class Ctx:
     def touch(self, *funcs):
         for f in funcs:
             self.analysed_functions.add(getattr(f, "qual", str(f)))
+            # a whole-method memo that was set aside for the analysis (loader.strip_unknown_memoisations) is reported once
+            mod = getattr(f, "module", None)
+            for (cname, mname, attr, line) in getattr(mod, "memos", []) or []:
+                if getattr(f, "cls", None) is not None and f.cls.name == cname and f.name == mname:
+                    key = "%s::memoised:%s" % (f.qual, attr)
+                    if not any(i.key == key for i in self.instances):
+                        self.note("memo", key, f.loc(), "%s keeps its result in self.%s per argument; the computation is analysed as if it ran on every "
+                                  "call, dropping the cache when its inputs change is decided only where a rule says so" % (mname, attr))
 
     def ok(self, rule, key, loc, detail="", **slots):
         self.instances.append(Instance(rule, key, loc, "ok", detail, slots))
